@@ -486,6 +486,9 @@ pub fn expr_to_source_with_scope(
             return_expr,
         } => {
             let mut result = "do {".to_string();
+            // A block-local assignment shadows a captured variable of the same name for the
+            // rest of the block, so that name must no longer be inlined after it
+            let mut block_scope = std::borrow::Cow::Borrowed(scope);
             for stmt in statements {
                 // Leading comments
                 for comment in &stmt.leading {
@@ -495,9 +498,15 @@ pub fn expr_to_source_with_scope(
                 result.push_str(&format!(
                     "\n  {}",
                     crate::formatter::protect_statement_start(expr_to_source_with_scope(
-                        &stmt.node, scope
+                        &stmt.node,
+                        &block_scope
                     ))
                 ));
+                if let Expr::Assignment { ident, .. } = &stmt.node.node
+                    && block_scope.contains_key(ident)
+                {
+                    block_scope.to_mut().shift_remove(ident);
+                }
                 // Trailing comment
                 if let Some(trailing) = &stmt.trailing {
                     result.push_str(&format!("  {}", trailing));
@@ -509,7 +518,7 @@ pub fn expr_to_source_with_scope(
             }
             result.push_str(&format!(
                 "\n  return {}",
-                expr_to_source_with_scope(&return_expr.node, scope)
+                expr_to_source_with_scope(&return_expr.node, &block_scope)
             ));
             result.push_str("\n}");
             result
